@@ -53,7 +53,7 @@ T = {
          "first run of ./check C19 caught it only through the regenerated control-flow shape (translator elastic.py: proof obligation broken, VIOLATION ... no-failing-input-found). Program `blocked` added, which gives the failing history"),
  'C20': ("exactly once / only after MPI's report: poll_multithreaded compacts requests_ / callbacks_ after it has released polling_vector_mtx_, racing with another poller that holds the lock",
          "two workers polling concurrently with several requests outstanding",
-         "caught at the first attempt; the change is a data race between two pollers: with the original run mix (2-4 workers) the regression of the corpus caught it in 2 of 3 attempts, so six `crowd` runs (8 workers polling without a polling pool, >= 96 requests outstanding, 3 rounds) were added to the quick tier - caught at check seeds 1-4 afterwards; a race stays a probabilistic detection"),
+         "caught at the first attempt; the change is a data race between two pollers: with the original run mix (2-4 workers) the regression of the corpus caught it in 2 of 3 attempts, and on an idle machine (the isolated lab) not at all, so six `crowd` runs were added to the quick tier (8 workers polling without a polling pool, 128-512 requests outstanding so that the unlocked compaction takes a while, strong timing perturbation, 3 rounds): caught on /repo at check seeds 1-4 and in the idle lab in 2 of 2 attempts, e.g. 'completion before the transfer: receive N signalled with 6 bytes not yet received'; a race stays a probabilistic detection"),
 }
 for p, (breaks, needs, how) in T.items():
     d = os.path.join(HERE, 'seeded', p + 'f')
